@@ -529,6 +529,24 @@ class _UnrollComps(ast.NodeTransformer):
 
     def visit_Call(self, node: ast.Call) -> ast.AST:
         self.generic_visit(node)
+        # next((E for a, b in (<literal rows>) if C), D)  ->  E1 if C1 else (E2 if C2 else D)
+        if isinstance(node.func, ast.Name) and node.func.id == "next" and len(node.args) == 2 \
+                and not node.keywords and isinstance(node.args[0], ast.GeneratorExp) and len(
+                    node.args[0].generators) == 1 and len(node.args[0].generators[0].ifs) == 1:
+            g = node.args[0].generators[0]
+            cond = g.ifs[0]
+            g2 = ast.comprehension(target=g.target, iter=g.iter, ifs=[], is_async=0)
+            rows = self._rows(g2)
+            if rows is not None:
+                self.n += 1
+                out: ast.AST = node.args[1]
+                b = _Beta()
+                for r in reversed(rows):
+                    out = ast.IfExp(
+                        test=b.visit(_SubstNames(r).visit(copy.deepcopy(cond))),
+                        body=b.visit(_SubstNames(r).visit(copy.deepcopy(node.args[0].elt))),
+                        orelse=out)
+                return ast.copy_location(out, node)
         kws = []
         changed = False
         for k in node.keywords:
